@@ -41,7 +41,17 @@ func main() {
 	repo := flag.String("repo", "/repo", "path of the eino tree to analyse")
 	verif := flag.String("verif", "", "verif dir (evidence, known-findings); default: parent of the binary's dir")
 	manifest := flag.Bool("manifest", false, "print MANIFEST.json for the registered properties and exit")
+	dumpfn := flag.String("dumpfn", "", "debug: pkg:func to dump SSA of")
 	flag.Parse()
+	if *dumpfn != "" {
+		w := loadWorld(*repo)
+		parts := strings.SplitN(*dumpfn, ":", 2)
+		fn := w.Fn(parts[0], parts[1])
+		for _, f := range withAnons(fn) {
+			f.WriteTo(os.Stdout)
+		}
+		return
+	}
 	if *manifest {
 		writeManifest()
 		return
